@@ -42,13 +42,13 @@ func GenC15(t *rapid.T) *C15Case {
 	switch pick(t, "sub", 40, 25, 35) {
 	case 0:
 		c.Sub = "foreach"
-		c.N = []int{0, 1, 2, 3, 4, 5, 8, 13, 20, 40}[drawIdx(t, 10, "n")]
+		c.N = []int{0, 1, 2, 3, 4, 5, 8, 13, 20, 40, 64, 65, 100, 130}[drawIdx(t, 14, "n")]
 		for i := 0; i < c.N; i++ {
 			c.Order = append(c.Order, genRaw(t))
 		}
 	case 1:
 		c.Sub = "mapasync"
-		c.N = []int{0, 1, 2, 3, 5, 8, 16, 40}[drawIdx(t, 8, "n")]
+		c.N = []int{0, 1, 2, 3, 5, 8, 16, 40, 64, 65, 129}[drawIdx(t, 11, "n")]
 		for i := 0; i < c.N; i++ {
 			c.Yields = append(c.Yields, drawInt(t, 0, 3, "y"))
 		}
@@ -158,11 +158,16 @@ func runGated(c *C15Case, st *Stats) error {
 	var lostControl int32
 	go func() {
 		defer close(controllerDone)
+		wait := 2 * time.Second
 		for _, s := range order {
 			select {
 			case <-arrived[s]:
-			case <-time.After(2 * time.Second):
-				atomic.AddInt32(&lostControl, 1) // only loses ordering control, never decides the verdict
+			case <-time.After(wait):
+				// the callback for this slot has not started although earlier ones are blocked: the
+				// implementation does not start all callbacks at once. Only ordering control is lost
+				// (never the verdict); stop waiting long for the remaining slots.
+				atomic.AddInt32(&lostControl, 1)
+				wait = 5 * time.Millisecond
 			}
 			close(gates[s])
 		}
@@ -561,14 +566,17 @@ func readOpObject(o, other at.Object, op string, salt int) string {
 }
 
 func runReaders(c *C15Case, st *Stats) error {
-	var run func(op string, salt int) string
-	if c.Object {
-		o, other := at.NewObject(), at.NewObject("k00", 1000, "extra", "e")
-		for i := 0; i < c.N; i++ {
-			o.Set(c15Key(i), c15Elem(i, c.Mixed))
+	// Two identical containers are built: the sequential reference runs on one, the concurrent
+	// phase on the other, which nothing has touched before (so lazily initialised state inside
+	// the library is first exercised by the concurrent readers).
+	mk := func() func(op string, salt int) string {
+		if c.Object {
+			o, other := at.NewObject(), at.NewObject("k00", 1000, "extra", "e")
+			for i := 0; i < c.N; i++ {
+				o.Set(c15Key(i), c15Elem(i, c.Mixed))
+			}
+			return func(op string, salt int) string { return readOpObject(o, other, op, salt) }
 		}
-		run = func(op string, salt int) string { return readOpObject(o, other, op, salt) }
-	} else {
 		// a receiver with history (spare capacity after Pop/Delete or growth), then N known elements
 		l := buildFromHistory(c.History)
 		for i := 0; i < c.N; i++ {
@@ -578,14 +586,15 @@ func runReaders(c *C15Case, st *Stats) error {
 			l.Pop() // make sure there is spare capacity behind the last element
 		}
 		other := at.NewList("o", 1)
-		run = func(op string, salt int) string { return readOpList(l, other, op, salt) }
+		return func(op string, salt int) string { return readOpList(l, other, op, salt) }
 	}
+	runSeq, run := mk(), mk()
 	// sequential reference results
 	want := make([][]string, len(c.Readers))
 	for g, ops := range c.Readers {
 		for j, op := range ops {
 			var fp string
-			if p, panicked := catch(func() { fp = run(op, g*7+j) }); panicked {
+			if p, panicked := catch(func() { fp = runSeq(op, g*7+j) }); panicked {
 				return errf("read-only operation %s panicked sequentially: %v", op, p)
 			}
 			want[g] = append(want[g], fp)
